@@ -308,3 +308,90 @@ func init() {
 		return nil
 	}})
 }
+
+// ---------------------------------------------------------------------------
+// C19 (S) HOTKEY in a pipeline: the report is computed when the command is handled and written to the client later,
+// while the following commands of the pipeline (and of another connection) are already being processed - with
+// compression on, whose filter works in pooled buffers.
+//
+// bound     all schedules P1 F1 (quick) / P2 F1 (thorough) from the moment the pipeline is sent
+// oracle    the HOTKEY reply is the report of that moment: its header count equals its lines, every line parses, no key
+//           twice, non-increasing counters, only keys that were accessed
+// ---------------------------------------------------------------------------
+
+func c19hotkeyPipelinedBody() {
+	sched.SetQuiet(true)
+	cl := cluster.New(2, 0, 2)
+	s := vfStartStack(cl, vfSvcConfig(0, c13cps(true, 8), 0))
+	c := s.NewClient("c0")
+	other := s.NewClient("c1")
+	accessed := map[string]bool{}
+	for i := 0; i < 4; i++ {
+		for j := 0; j <= 2*i; j++ {
+			k := fmt.Sprintf("hot:%d:%s", i, strings.Repeat("n", 10+i))
+			c.Do("GET", k)
+			accessed[k] = true
+		}
+	}
+	sched.WaitQuiescent()
+	sched.AdvanceTime(int64(10*1e9) + 1) // the collect ticker
+	sched.WaitQuiescent()
+	big := strings.Repeat("The quick brown fox. ", 40)
+	sched.SetQuiet(false)
+	raw := append(resp.Encode(resp.Cmd("HOTKEY")), resp.Encode(resp.Cmd("SET", "k", big))...)
+	raw = append(raw, resp.Encode(resp.Cmd("HOTKEY"))...)
+	c.Send(raw)
+	other.Send(resp.Encode(resp.Cmd("SET", "k2", strings.Repeat("Z", 500))))
+	sched.WaitQuiescent()
+	sched.SetQuiet(true)
+	rs, _ := c.Pending()
+	if len(rs) != 3 {
+		sched.Fail("not-one-reply-per-request / HOTKEY in a pipeline", fmt.Sprint(rs))
+		return
+	}
+	for _, got := range []resp.Value{rs[0], rs[2]} {
+		if got.Kind != '$' {
+			sched.Fail("hotkey-reply-shape / in a pipeline", got.String())
+			return
+		}
+		lines := strings.Split(strings.TrimRight(string(got.Str), "\n"), "\n")
+		seen := map[string]bool{}
+		last := int64(1 << 62)
+		for _, l := range lines[1:] {
+			var cnt int64
+			var name string
+			if _, err := fmt.Sscanf(l, "counter: %d  keyname: %s", &cnt, &name); err != nil {
+				sched.Fail("hotkey-report-unparseable / in a pipeline", fmt.Sprintf("line %q of %q", l, got.Str))
+				return
+			}
+			switch {
+			case seen[name]:
+				sched.Fail("hotkey-report-lists-key-twice / in a pipeline", string(got.Str))
+				return
+			case !accessed[name]:
+				sched.Fail("hotkey-report-lists-key-never-accessed / in a pipeline", fmt.Sprintf("%q in %q", name, got.Str))
+				return
+			case cnt > last:
+				sched.Fail("hotkey-report-not-ordered / in a pipeline", string(got.Str))
+				return
+			}
+			seen[name] = true
+			last = cnt
+		}
+		if len(lines) < 2 {
+			sched.Fail("hotkey-report-empty-after-traffic / in a pipeline", string(got.Str))
+			return
+		}
+	}
+	sched.SetOutcome("ok")
+}
+
+func init() {
+	sched.Register(&sched.Scenario{Name: "C19/hotkey-pipelined", Setup: func(tier string) (sched.Config, func()) {
+		b := sched.Bounds{P: 1, F: 1}
+		if tier == "thorough" {
+			b = sched.Bounds{P: 2, F: 1}
+		}
+		return sched.Config{Bounds: b, Iterative: true, MaxSteps: 400000}, c19hotkeyPipelinedBody
+	}})
+}
